@@ -426,6 +426,17 @@ fn check_client_stream(rec: &mut Rec, sim: &Sim, i: usize, prop: &str) {
     let p = &sim.plans[i];
     let (resps, leftover) = split_responses(&c.received);
     if c.refused {
+        // whatever else went wrong with a client the harness saw refused: an application response addressed to ANOTHER
+        // client must never reach it (the server may have admitted it after all, on a descriptor number it took away
+        // from a connection that still had requests in flight)
+        for (code, body) in &resps {
+            if *code == 200 {
+                let t = String::from_utf8_lossy(body).split(':').next().unwrap_or("").to_string();
+                if !t.starts_with(&format!("/c{}/", i)) {
+                    rec.oracle_fail("C07", &format!("client {} (turned away at capacity as far as the harness could see) received the response to {}", i, t), &sim.w.log);
+                }
+            }
+        }
         // a refused client that left before the server got to it cannot have read anything
         if c.received != SERVER_FULL && !(c.closed && c.received.is_empty()) {
             rec.oracle_fail("C10", &format!("refused client {} received {} instead of the 503 message", i, hx(&c.received)), &sim.w.log);
